@@ -15,8 +15,10 @@ import (
 	crand "crypto/rand"
 	"crypto/x509"
 	"crypto/x509/pkix"
+	"encoding/asn1"
 	"encoding/pem"
 	"fmt"
+	"github.com/ghodss/yaml"
 	"io/fs"
 	"math/big"
 	"math/rand"
@@ -144,6 +146,7 @@ type dent struct {
 	vstyle    int  // validity block style, constant over the history
 	vver      int  // edits of the validity block within its style (another end date / duration)
 	serial    bool // the configuration fixes a serial number (two entities may fix the same one: serial numbers are not aliases)
+	sver      int  // edits of that serial number (neighbouring 17- and 19-digit values)
 	layout    int  // 0: e<i>.yaml, 1: sub/e<i>.yml, 2: deep/er/e<i>.json-free yaml with explicit alias in x<i>.yaml
 }
 
@@ -159,8 +162,13 @@ func (e dent) stem(i int) string {
 	return fmt.Sprintf("e%d", i)
 }
 func (e dent) cfgPath(i int) string {
-	if e.layout == 1 {
+	switch e.layout {
+	case 1:
 		return e.stem(i) + ".yml"
+	case 3:
+		return e.stem(i) + ".json" // (sorts before the artifact e<i>.pem in a directory walk, unlike .yaml / .yml)
+	case 4:
+		return e.stem(i) + ".YAML"
 	}
 	return e.stem(i) + ".yaml"
 }
@@ -185,7 +193,18 @@ func profileYaml() string {
 	return s + fmt.Sprintf("extensions:\n  - custom:\n      oid: 1.2.4.%d\n      raw: \"!empty\"\n", profVersion)
 }
 
+// the configuration file's text: block YAML, or the same tree as JSON for a .json file
 func (e dent) yaml(i int) string {
+	t := e.yamlText(i)
+	if e.layout == 3 {
+		if j, err := yaml.YAMLToJSON([]byte(t)); err == nil {
+			return string(j)
+		}
+	}
+	return t
+}
+
+func (e dent) yamlText(i int) string {
 	s := fmt.Sprintf("version: 1\nsubject: CN=e%d v%d\n", i, e.subj)
 	if e.prof {
 		s += "profile: shared\n"
@@ -194,7 +213,7 @@ func (e dent) yaml(i int) string {
 		s += fmt.Sprintf("alias: e%d\n", i)
 	}
 	if e.serial {
-		s += fmt.Sprintf("serialNumber: %d\n", 1000+i%2)
+		s += fmt.Sprintf("serialNumber: %d\n", e.serialNo(i))
 	}
 	switch e.vstyle {
 	case 0:
@@ -225,6 +244,7 @@ func (e dent) yaml(i int) string {
 	}
 	return s
 }
+
 // run-relative durations, all of different length (the abstract model equates "other text" with "other certificate")
 func relDuration(v int) string {
 	if v%2 == 1 {
@@ -266,6 +286,12 @@ func (e dent) relEnd(from time.Time) (time.Time, bool) {
 	return from.AddDate(ymd[0], ymd[1], ymd[2]), true
 }
 
+// the configured serial number: small and shared between some entities, long for others - an edit moves it to its neighbour, which
+// differs only in the last digit (values that a detour through floating point would merge)
+func (e dent) serialNo(i int) int64 {
+	return []int64{1000, 1234567890123456789, 1000, 6148914691236517205, 9007199254740993}[i%5] + int64(e.sver)
+}
+
 func ktn(r bool) string {
 	if r {
 		return "RSA"
@@ -281,7 +307,8 @@ func (e dent) coq() string {
 	if e.prof {
 		vis += 1000 * (profVersion + 1) // the visible content includes what the profile contributes
 	}
-	vis += 100000 * e.vver // the validity block is part of the visible content
+	vis += 100000 * e.vver   // the validity block is part of the visible content
+	vis += 10000000 * e.sver // so is the serial number
 	inheritsExpired := e.prof && profExpired && e.vstyle == 3
 	if inheritsExpired {
 		vis += 500
@@ -420,7 +447,9 @@ func bs(x bool) string {
 }
 
 type pubEq interface{ Equal(x crypto.PublicKey) bool }
-type privEq interface{ Equal(x crypto.PrivateKey) bool }
+type privEq interface {
+	Equal(x crypto.PrivateKey) bool
+}
 
 // the same private key, however it is encoded (gopki re-writes a key file in its own fixed-width form)
 func sameKey(a, b crypto.Signer) bool {
@@ -468,6 +497,9 @@ func observeDir(m fstest.MapFS, prev map[int]fileView, ents []dent) (string, map
 			refl = v.crt.Subject.CommonName == want && hasExt && ((e.prof && hasProf) || (!e.prof && !anyProf))
 			if wa, ok := e.wantNotAfter(); ok && !v.crt.NotAfter.Equal(wa) {
 				refl = false
+			}
+			if e.serial && (v.crt.SerialNumber == nil || v.crt.SerialNumber.Cmp(big.NewInt(e.serialNo(i))) != 0) {
+				refl = false // the configured serial number is the certificate's, whatever the key material came from
 			}
 			if wa, ok := e.relEnd(v.crt.NotBefore); ok && !v.crt.NotAfter.Equal(wa) {
 				refl = false
@@ -556,7 +588,7 @@ func oneHistory(h int, faults bool) {
 		if rng.Intn(9) == 0 {
 			ents[i].vstyle = 5
 		}
-		ents[i].layout = rng.Intn(3)
+		ents[i].layout = rng.Intn(5)
 		ents[i].serial = rng.Intn(3) == 0
 		if ents[i].prof && rng.Intn(2) == 0 {
 			ents[i].vstyle = 3 // no validity of its own: the profile's applies
@@ -700,7 +732,12 @@ func oneHistory(h int, faults bool) {
 			lastStrat, lastOk = strat, res == "ok" && !faulty
 			continue
 		case r < 52:
-			ents[i].subj++
+			if ents[i].serial && rng.Intn(2) == 0 {
+				ents[i].sver++ // only the serial number changes
+				forceDefault = lastOk || rng.Intn(2) == 0
+			} else {
+				ents[i].subj++
+			}
 			putcfg(i)
 			ops = append(ops, fmt.Sprintf("U (OpEditCfg %d %s)", i, ents[i].coq()))
 		case r < 62:
@@ -762,7 +799,15 @@ func oneHistory(h int, faults bool) {
 			clock++
 			nreq++
 			k, _ := ecdsa.GenerateKey(elliptic.P256(), crand.Reader)
-			der, _ := x509.CreateCertificateRequest(crand.Reader, &x509.CertificateRequest{Subject: pkix.Name{CommonName: "req"}}, k)
+			tmpl := &x509.CertificateRequest{Subject: pkix.Name{CommonName: "req"}}
+			if rng.Intn(2) == 0 {
+				// two attributes, not in the order a DER SET OF would sort them into (a request is kept byte for byte, never re-encoded)
+				tmpl.Attributes = []pkix.AttributeTypeAndValueSET{
+					{Type: asn1.ObjectIdentifier{1, 2, 840, 113549, 1, 9, 8}, Value: [][]pkix.AttributeTypeAndValue{{{Type: asn1.ObjectIdentifier{2, 5, 4, 3}, Value: "second"}}}},
+					{Type: asn1.ObjectIdentifier{1, 2, 840, 113549, 1, 9, 2}, Value: [][]pkix.AttributeTypeAndValue{{{Type: asn1.ObjectIdentifier{2, 5, 4, 3}, Value: "first"}}}},
+				}
+			}
+			der, _ := x509.CreateCertificateRequest(crand.Reader, tmpl, k)
 			var o bytes.Buffer
 			pem.Encode(&o, &pem.Block{Type: "CERTIFICATE REQUEST", Bytes: der})
 			m[ents[i].pemPath(i)] = &fstest.MapFile{Data: o.Bytes(), Mode: 0644, ModTime: dtm(clock)}
